@@ -359,7 +359,13 @@ def build_models(I):
     def _it(x):
         if isinstance(x, (list, tuple, dict, str, range)):
             return x
-        return I.iterate_to_list(x) if (hasattr(x, "__pyvc_iter__") or _is_repo_iterable(x)) else x
+        if _is_repo_iterable(x):
+            x = I.call_value(type(x).__iter__, (x,), {})
+        if getattr(x, "__pyvc_absseq__", False):
+            return x  # abstract sequence: only a loop with a contract may consume it
+        if hasattr(x, "__pyvc_iter__"):
+            return I.iterate_to_list(x)
+        return x
 
     def _is_repo_iterable(x):
         return type(x).__module__.startswith("picosvg") and not isinstance(x, tuple) and hasattr(type(x), "__iter__")
